@@ -151,6 +151,9 @@ func lenAtom(c ssa.Value) (string, bool, bool) {
 func globalName(v ssa.Value) string {
 	if ld, ok := isLoad(stripConv(v)); ok {
 		if g, ok := ld.(*ssa.Global); ok {
+			if g.Object() != nil {
+				return objName(g.Object())
+			}
 			return g.Name()
 		}
 	}
@@ -404,7 +407,7 @@ func constStringsOfVar(pk *packages.Package, name string) ([]string, bool) {
 			for _, sp := range gd.Specs {
 				vs := sp.(*ast.ValueSpec)
 				for i, n := range vs.Names {
-					if n.Name != name || i >= len(vs.Values) {
+					if objName(pk.TypesInfo.Defs[n]) != name || i >= len(vs.Values) {
 						continue
 					}
 					cl, ok := vs.Values[i].(*ast.CompositeLit)
@@ -476,7 +479,7 @@ func ruleTAB2(w *World) []Ob {
 			// by role: the function(s) of the parser package that loop over the bullet table
 			mentions := false
 			ast.Inspect(fd.Body, func(m ast.Node) bool {
-				if id, ok := m.(*ast.Ident); ok && id.Name == "listSymbols" {
+				if id, ok := m.(*ast.Ident); ok && pk.TypesInfo.Uses[id] != nil && pk.TypesInfo.Uses[id].Parent() == pk.Types.Scope() && objName(pk.TypesInfo.Uses[id]) == "listSymbols" {
 					mentions = true
 				}
 				return true
@@ -487,7 +490,14 @@ func ruleTAB2(w *World) []Ob {
 			found := false
 			ast.Inspect(fd.Body, func(m ast.Node) bool {
 				rs, ok := m.(*ast.RangeStmt)
-				if !ok || types.ExprString(rs.X) != "listSymbols" {
+				rid, isID := func() (*ast.Ident, bool) {
+					if !ok {
+						return nil, false
+					}
+					id, isID := rs.X.(*ast.Ident)
+					return id, isID
+				}()
+				if !ok || !isID || objName(pk.TypesInfo.Uses[rid]) != "listSymbols" {
 					return true
 				}
 				found = true
@@ -1022,6 +1032,87 @@ func ruleTAB4(w *World) []Ob {
 			okAll = false
 			why = append(why, "expected two membership tests (disk entry ∉ markdown set ⇒ extra; markdown path ∉ disk set ⇒ missing)")
 		}
+		// both sets are keyed by strings built the same way: every key is a filepath.Join result (or comes out of one
+		// of the sets again); a key assembled by concatenation on one side differs from the other side's cleaned path
+		// for some inputs ("." roots, doubled separators)
+		keyBad := ""
+		nKeys := 0
+		var originOK func(v ssa.Value, d int) bool
+		originOK = func(v ssa.Value, d int) bool {
+			if d > 6 {
+				return false
+			}
+			v = resolve(stripConv(v))
+			switch x := v.(type) {
+			case *ssa.Call:
+				return calleeFullName(x.Common()) == "path/filepath.Join" || calleeFullName(x.Common()) == "path/filepath.Clean"
+			case *ssa.Phi:
+				for _, e := range x.Edges {
+					if !originOK(e, d+1) {
+						return false
+					}
+				}
+				return true
+			case *ssa.Extract:
+				if _, isNext := x.Tuple.(*ssa.Next); isNext {
+					return true // a key taken out of one of the sets
+				}
+			case *ssa.Parameter:
+				return true // judged at the call sites that build it
+			case *ssa.UnOp:
+				if x.Op == token.MUL {
+					if al, ok := x.X.(*ssa.Alloc); ok {
+						for _, st := range cellStores(al) {
+							if !originOK(st.Val, d+1) {
+								return false
+							}
+						}
+						return len(cellStores(al)) > 0
+					}
+					if fv, ok := x.X.(*ssa.FreeVar); ok {
+						sts := cellStores(rootCell(fv))
+						for _, st := range sts {
+							if !originOK(st.Val, d+1) {
+								return false
+							}
+						}
+						return len(sts) > 0
+					}
+				}
+			}
+			return false
+		}
+		for _, f := range fam {
+			f := f
+			allInstrs(f, func(in ssa.Instruction) {
+				var key ssa.Value
+				var m ssa.Value
+				switch x := in.(type) {
+				case *ssa.MapUpdate:
+					key, m = x.Key, x.Map
+				case *ssa.Lookup:
+					key, m = x.Index, x.X
+				default:
+					return
+				}
+				mt, ok := m.Type().Underlying().(*types.Map)
+				if !ok {
+					return
+				}
+				if b, ok := mt.Key().Underlying().(*types.Basic); !ok || b.Kind() != types.String {
+					return
+				}
+				nKeys++
+				if !originOK(key, 0) {
+					keyBad = "the set key at " + p.InstrPos(in) + " is not a filepath.Join result (" + describeValue(key) + "): the directory side and the Markdown side of the comparison are spelled differently for some roots, so existing paths are reported missing and extra"
+				}
+			})
+		}
+		if keyBad != "" {
+			l.bad(p.FuncID(vr), "both path sets are keyed by joined paths", p.Pos(vr.Pos()), keyBad, "sets")
+		} else if nKeys > 0 {
+			l.ok(p.FuncID(vr), "both path sets are keyed by joined paths", p.Pos(vr.Pos()), fmt.Sprintf("%d set keys, each a filepath.Join result or a key taken from a set", nKeys), true, "sets")
+		}
 		if okAll {
 			l.ok(p.FuncID(vr), "two membership tests feed the two lists", p.Pos(vr.Pos()), fmt.Sprintf("%d comma-ok map lookups decide list membership", lookupsNeg), true, "sets")
 		} else {
@@ -1040,7 +1131,7 @@ func structTags(p *Prog, typeName string) map[string]string {
 	if pk == nil {
 		return out
 	}
-	obj := pk.Types.Scope().Lookup(typeName)
+	obj := lookupByCanonName(pk.Types.Scope(), typeName)
 	if obj == nil {
 		return nil
 	}
@@ -1187,8 +1278,22 @@ func ruleTAB6(w *World) []Ob {
 				src := describeValue(resolve(st.Val))
 				construct := "field " + f + " of the grower"
 				okSrc := false
-				if prm, isP := resolve(st.Val).(*ssa.Parameter); isP && prm.Name() == f {
-					okSrc = true
+				if prm, isP := resolve(st.Val).(*ssa.Parameter); isP {
+					// by position among the parameters of that type: (last format, intermediate format, validation flag)
+					var sameType []*ssa.Parameter
+					for _, q := range fn.Params {
+						if types.Identical(q.Type(), prm.Type()) {
+							sameType = append(sameType, q)
+						}
+					}
+					switch f {
+					case "lastNodeFormat":
+						okSrc = len(sameType) == 2 && sameType[0] == prm
+					case "intermedialNodeFormat":
+						okSrc = len(sameType) == 2 && sameType[1] == prm
+					case "enabledValidation":
+						okSrc = len(sameType) == 1
+					}
 				}
 				if f == "enabledValidation" {
 					if b, isC := constBool(st.Val); isC && !b {
@@ -1488,6 +1593,34 @@ func ruleTAB7(w *World) []Ob {
 	if nExit == 0 {
 		l.undecided("cmd/gtree", "cli.Exit codes", "-", "no cli.Exit call found", "code")
 	}
+	// input wiring: a file the CLI opens for reading is what the library reads (not opened and then ignored in
+	// favour of stdin)
+	inScope, _ := cliScopeFuncs(p)
+	for _, fn := range p.ModFuncs {
+		if p.PkgPath(fn) != cliPkgPath || !inScope[outermost(fn)] && !inScope[fn] {
+			continue
+		}
+		fn := fn
+		num := numbered{}
+		allInstrs(fn, func(in ssa.Instruction) {
+			c, ok := in.(*ssa.Call)
+			if !ok || calleeFullName(c.Common()) != "os.Open" {
+				return
+			}
+			var file ssa.Value
+			for _, r := range *c.Referrers() {
+				if ex, ok := r.(*ssa.Extract); ok && ex.Index == 0 {
+					file = ex
+				}
+			}
+			construct := num.name("opened input reaches the library")
+			if file != nil && reachesLibraryCall(p, file, 0) {
+				l.ok(p.FuncID(fn), construct, p.InstrPos(c), "the *os.File returned by os.Open flows into a library call", true, "input")
+			} else {
+				l.bad(p.FuncID(fn), construct, p.InstrPos(c), "the file opened here never reaches a library call (only closed, or shadowed by another variable): the command reads something else — typically stdin — instead of the file the user named", "input")
+			}
+		})
+	}
 	// actions: an error of the operation is returned as a non-nil ExitCoder; success returns nil only on the nil side
 	cmds := cliCommands(p)
 	for _, name := range []string{"output", "mkdir", "verify", "template"} {
@@ -1684,6 +1817,44 @@ func reachesLibraryCall(p *Prog, v ssa.Value, depth int) bool {
 			if reachesLibraryCall(p, x, depth+1) {
 				return true
 			}
+		case *ssa.MakeInterface:
+			if reachesLibraryCall(p, x, depth+1) {
+				return true
+			}
+		case *ssa.ChangeInterface:
+			if reachesLibraryCall(p, x, depth+1) {
+				return true
+			}
+		case *ssa.Slice:
+			if reachesLibraryCall(p, x, depth+1) {
+				return true
+			}
+		case *ssa.Return:
+			// handed back to the callers (a helper that builds the option / opens the input)
+			fn := x.Parent()
+			idx := -1
+			for i, rv := range x.Results {
+				if rv == v {
+					idx = i
+				}
+			}
+			for _, ci := range p.Callers(fn) {
+				cv, ok := ci.(*ssa.Call)
+				if !ok {
+					continue
+				}
+				if len(x.Results) == 1 {
+					if reachesLibraryCall(p, cv, depth+1) {
+						return true
+					}
+					continue
+				}
+				for _, r2 := range *cv.Referrers() {
+					if ex, ok := r2.(*ssa.Extract); ok && ex.Index == idx && reachesLibraryCall(p, ex, depth+1) {
+						return true
+					}
+				}
+			}
 		case *ssa.Call:
 			if f := x.Common().StaticCallee(); f != nil && p.PkgPath(f) == modulePath && f.Object() != nil && f.Object().Exported() && f.Signature.Recv() == nil && !strings.HasPrefix(fname(f), "With") {
 				return true
@@ -1729,7 +1900,7 @@ func customMarshalMethods(p *Prog, typeName string) []string {
 	if pk == nil {
 		return nil
 	}
-	obj := pk.Types.Scope().Lookup(typeName)
+	obj := lookupByCanonName(pk.Types.Scope(), typeName)
 	if obj == nil {
 		return nil
 	}
